@@ -36,6 +36,7 @@ def correspondence(ctx):
     vlib.differential(ctx, "codec-differential", "TestVerifCodec", "codec", {"VERIF_N": ctx.scale(1500, 40000)})
     vlib.differential(ctx, "dispatch-matrix", "TestVerifInboundMatrix", "inbound", {})
     vlib.differential(ctx, "sender-under-hostile-sacks", "TestVerifSimInjectSender", "sender", {"VERIF_N": ctx.scale(60, 1500)}, timeout=3000)
+    simcommon.sim_monitor(ctx, "misplaced-control-chunks-all-states", "TestVerifInboundHostile", {"VERIF_N": ctx.scale(6, 60)}, "INBOUNDHOSTILE")
     simcommon.sim_monitor(ctx, "hostile-injection", "TestVerifSimInject", {"VERIF_N": ctx.scale(150, 4000)}, "SIMINJECT")
 
 
